@@ -179,6 +179,12 @@ func (o *CandidateNode) UnmarshalYAML(node *yaml.Node, anchorMap map[string]*Can
 }
 
 func (o *CandidateNode) MarshalYAML() (*yaml.Node, error) {
+	return o.marshalYAML(false)
+}
+
+// emptyNotPlain: the node is written where the YAML encoder cannot leave a scalar empty (as a map key, or anywhere
+// inside a flow collection) and would write '' instead
+func (o *CandidateNode) marshalYAML(emptyNotPlain bool) (*yaml.Node, error) {
 	log.Debug("MarshalYAML to yaml: %v", o.Tag)
 	switch o.Kind {
 	case AliasNode:
@@ -190,6 +196,10 @@ func (o *CandidateNode) MarshalYAML() (*yaml.Node, error) {
 		log.Debug("MarshalYAML - scalar: %v", o.Value)
 		target := &yaml.Node{Kind: yaml.ScalarNode}
 		o.copyToYamlNode(target)
+		if emptyNotPlain && target.Tag == "!!null" && target.Value == "" {
+			// a null written as nothing (`{a: }`, `? : 1`) would be printed as '' there and read back as a string
+			target.Value = "null"
+		}
 		return target, nil
 	case MappingNode, SequenceNode:
 		targetKind := yaml.MappingNode
@@ -203,7 +213,9 @@ func (o *CandidateNode) MarshalYAML() (*yaml.Node, error) {
 		target.Content = make([]*yaml.Node, len(o.Content))
 		for i := 0; i < len(o.Content); i++ {
 
-			child, err := o.Content[i].MarshalYAML()
+			inFlow := emptyNotPlain || target.Style&yaml.FlowStyle != 0
+			isKey := o.Kind == MappingNode && i%2 == 0
+			child, err := o.Content[i].marshalYAML(inFlow || isKey)
 
 			if err != nil {
 				return nil, err
